@@ -2464,7 +2464,7 @@ func lexRuneDomain() []rune {
 	for r := rune(0x2000); r <= 0x200f; r++ {
 		out = append(out, r)
 	}
-	return append(out, 0x2028, 0x2029, 0x202f, 0x205f, 0x3000, 0x266d, 0x266e, 0x266f, 0xfeff, 0xff10, 0x1f3b5, 0x10ffff)
+	return append(out, 0x2028, 0x2029, 0x202f, 0x205f, 0x3000, 0x266d, 0x266e, 0x266f, 0xfeff, 0xfffd, 0xff10, 0x1f3b5, 0x10ffff)
 }
 
 // refusedRunes folds a rune predicate of the lexer (is this rune part of a symbol / of a metadata text) on lexRuneDomain
